@@ -416,7 +416,8 @@ class Check:
                 self.violation("real code did not terminate within %ss in %s %s" % (timeout, s["recorder"], s["args"]), data, s)
                 return out
             raise InfraError("recorder timeout: %s" % " ".join(cmd))
-        if rc < 0 or rc in (3, 134, 136, 139) or (mpi and rc != 0):
+        # 77 = a harness allocator found its end-of-block canary overwritten (heap overflow in the real code)
+        if rc < 0 or rc in (3, 77, 134, 136, 139) or (mpi and rc != 0):
             self.violation("real code crashed (rc=%s) in %s %s" % (rc, s["recorder"], s["args"]), data, s)
             return out
         raise InfraError("recorder %s rc=%s\n%s" % (" ".join(cmd), rc, err[-3000:]))
